@@ -90,11 +90,13 @@ def txn (m : UMap) (cmp : List Compare) (succ fail : List ReqOp) : UMap × Bool 
   (m', ok, rs)
 
 mutual
-/-- one command: new map, result value, responses -/
+/-- one command: new map, result value, responses.  (A PUT_BATCH pair with an empty key — the restore
+path produces one from the terminating DUMMY of a leader snapshot stream, observation O1 — is
+invisible: the map holds non-empty keys only.) -/
 def step (m : UMap) : Cmd → UMap × Nat × List RespOp
   | .put k v pk => let (m', prev) := put m k v pk; (m', resultSuccess, [.put prev])
   | .del k e pk cnt => let (m', d, ps) := delete m k e pk cnt; (m', resultSuccess, [.del d ps])
-  | .putBatch kvs => (kvs.foldl (fun m p => SMap.set p.1 p.2 m) m, resultSuccess, kvs.map (fun _ => .put none))
+  | .putBatch kvs => ((kvs.filter (fun p => !p.1.isEmpty)).foldl (fun m p => SMap.set p.1 p.2 m) m, resultSuccess, kvs.map (fun _ => .put none))
   | .delBatch ks => (ks.foldl (fun m k => SMap.erase k m) m, resultSuccess, ks.map (fun _ => .del 0 []))
   | .txn cmp s f => let (m', ok, rs) := txn m cmp s f; (m', if ok then resultSuccess else resultFailure, rs)
   | .seq cmds => let (m', rs) := stepSeq m cmds; (m', resultSuccess, rs)
